@@ -3,7 +3,7 @@
 TSIGNAL, thread create / join, reference count operation, iterator call, rfbCloseClient /
 rfbClientConnectionGone call, notify-pipe write, `return` / `break` / `continue`, and the stores / tests
 of `cl->state` and `cl->sock` that steer the threads.  It is the skeleton of the code WITH
-fixes/C13-01 .. C13-08 applied.  `tools/consts/c13.py` regenerates the same list from the working tree
+fixes/C13-01 .. C13-04 applied.  `tools/consts/c13.py` regenerates the same list from the working tree
 on every run (`VncModel.Gen.C13.skeleton`); `Props.C13.skeleton_matches` compares the two. -/
 namespace VncModel.Threads
 
@@ -15,15 +15,15 @@ def expectedSkeleton : List (String × List String) := [
   ("rfbMarkRegionAsModified", ["rfbGetClientIterator", "rfbClientIteratorNext", "LOCK updateMutex", "TSIGNAL updateCond", "UNLOCK updateMutex", "rfbReleaseClientIterator"]),
   ("rfbScheduleCopyRegion", ["rfbGetClientIterator", "rfbClientIteratorNext", "LOCK updateMutex", "TSIGNAL updateCond", "UNLOCK updateMutex", "rfbReleaseClientIterator"]),
   ("rfbNewFramebuffer", ["rfbGetClientIterator", "rfbClientIteratorNext", "break", "rfbIncrClientRef", "LOCK sendMutex", "rfbReleaseClientIterator", "LOCK cursorMutex", "LOCK updateMutex", "TSIGNAL updateCond", "UNLOCK updateMutex", "UNLOCK sendMutex", "rfbDecrClientRef", "free", "UNLOCK cursorMutex"]),
-  ("rfbShutdownServer", ["rfbShutdownSockets", "pipewrite listener", "pthread_join", "rfbGetClientIterator", "rfbClientIteratorNext", "rfbCloseClient", "rfbClientIteratorNext", "pthread_join", "rfbClientConnectionGone", "rfbClientConnectionGone", "rfbReleaseClientIterator"]),
-  ("rfbScreenCleanup", ["rfbGetClientIterator", "rfbClientIteratorNext", "rfbClientIteratorNext", "rfbClientConnectionGone", "rfbReleaseClientIterator", "free", "TINI_MUTEX cursorMutex", "free", "free", "free"]),
+  ("rfbShutdownServer", ["rfbShutdownSockets", "pipewrite listener", "pthread_join", "rfbClientIteratorNext", "rfbCloseClient", "rfbClientIteratorNext", "pthread_join", "rfbClientConnectionGone", "rfbClientConnectionGone", "rfbReleaseClientIterator"]),
+  ("rfbScreenCleanup", ["rfbClientIteratorNext", "rfbClientIteratorNext", "rfbClientConnectionGone", "rfbReleaseClientIterator", "free", "TINI_MUTEX cursorMutex", "free", "free", "free"]),
   ("rfbRunEventLoop", ["pthread_create", "return", "return"]),
   ("rfbIncrClientRef", ["LOCK refCountMutex", "UNLOCK refCountMutex"]),
   ("rfbDecrClientRef", ["LOCK refCountMutex", "TSIGNAL deleteCond", "UNLOCK refCountMutex"]),
   ("rfbClientIteratorNext", ["return", "LOCK rfbClientListMutex", "rfbIncrClientRef", "UNLOCK rfbClientListMutex", "rfbDecrClientRef", "return"]),
   ("rfbReleaseClientIterator", ["rfbDecrClientRef", "free"]),
-  ("rfbNewTCPOrUDPClient", ["return", "rfbGetClientIterator", "rfbClientIteratorNext", "rfbReleaseClientIterator", "return", "INIT_MUTEX outputMutex", "INIT_MUTEX refCountMutex", "INIT_MUTEX sendMutex", "INIT_COND deleteCond", "INIT_MUTEX updateMutex", "INIT_COND updateCond", "LOCK rfbClientListMutex", "UNLOCK rfbClientListMutex", "rfbCloseClient", "rfbClientConnectionGone", "return", "rfbWriteExact", "rfbCloseClient", "rfbClientConnectionGone", "return", "break", "break", "rfbCloseClient", "rfbClientConnectionGone", "break", "return"]),
-  ("rfbClientConnectionGone", ["LOCK rfbClientListMutex", "LOCK refCountMutex", "UNLOCK rfbClientListMutex", "WAIT deleteCond refCountMutex", "UNLOCK refCountMutex", "LOCK rfbClientListMutex", "LOCK refCountMutex", "UNLOCK refCountMutex", "UNLOCK rfbClientListMutex", "free", "free", "free", "free", "free", "free", "TINI_COND updateCond", "TINI_MUTEX updateMutex", "LOCK outputMutex", "UNLOCK outputMutex", "TINI_MUTEX outputMutex", "LOCK sendMutex", "UNLOCK sendMutex", "TINI_MUTEX sendMutex", "free"]),
+  ("rfbNewTCPOrUDPClient", ["return", "rfbGetClientIterator", "rfbClientIteratorNext", "rfbReleaseClientIterator", "free", "free", "return", "INIT_MUTEX outputMutex", "INIT_MUTEX refCountMutex", "INIT_MUTEX sendMutex", "INIT_COND deleteCond", "INIT_MUTEX updateMutex", "INIT_COND updateCond", "LOCK rfbClientListMutex", "UNLOCK rfbClientListMutex", "rfbCloseClient", "rfbClientConnectionGone", "return", "rfbWriteExact", "rfbCloseClient", "rfbClientConnectionGone", "return", "break", "break", "rfbCloseClient", "rfbClientConnectionGone", "break", "return"]),
+  ("rfbClientConnectionGone", ["LOCK rfbClientListMutex", "LOCK refCountMutex", "UNLOCK rfbClientListMutex", "WAIT deleteCond refCountMutex", "UNLOCK refCountMutex", "LOCK rfbClientListMutex", "LOCK refCountMutex", "UNLOCK refCountMutex", "UNLOCK rfbClientListMutex", "free", "free", "free", "free", "free", "free", "free", "free", "TINI_COND updateCond", "TINI_MUTEX updateMutex", "LOCK outputMutex", "UNLOCK outputMutex", "TINI_MUTEX outputMutex", "LOCK sendMutex", "UNLOCK sendMutex", "TINI_MUTEX sendMutex", "free"]),
   ("rfbSendBell", ["rfbGetClientIterator", "rfbClientIteratorNext", "cl->state!=RFB_NORMAL", "continue", "LOCK sendMutex", "rfbWriteExact", "rfbCloseClient", "UNLOCK sendMutex", "rfbReleaseClientIterator"]),
   ("rfbSendServerCutText", ["rfbGetClientIterator", "rfbClientIteratorNext", "cl->state!=RFB_NORMAL", "continue", "LOCK sendMutex", "rfbWriteExact", "rfbCloseClient", "UNLOCK sendMutex", "continue", "rfbWriteExact", "rfbCloseClient", "UNLOCK sendMutex", "rfbReleaseClientIterator"]),
   ("rfbSendServerCutTextUTF8", ["rfbGetClientIterator", "rfbClientIteratorNext", "cl->state!=RFB_NORMAL", "continue", "LOCK sendMutex", "free", "rfbCloseClient", "UNLOCK sendMutex", "continue", "UNLOCK sendMutex", "continue", "UNLOCK sendMutex", "continue", "UNLOCK sendMutex", "rfbWriteExact", "rfbCloseClient", "UNLOCK sendMutex", "continue", "rfbWriteExact", "rfbCloseClient", "UNLOCK sendMutex", "UNLOCK sendMutex", "rfbReleaseClientIterator"]),
